@@ -127,6 +127,7 @@ mutual
       let (m, r2) ← istreamReadUInt r1
       let (y, r3) ← istreamReadLong r2     -- `int`: range-checked below
       if y < -2147483648 || y > 2147483647 then none
+      else if d == 0 && m == 0 && y == 0 then pure (.date ⟨0, 0, 0⟩, r3)   -- a DATE never assigned
       else match Calendar.setDate d m y with
         | some t => pure (.date t, r3)
         | none => none
